@@ -153,7 +153,15 @@ def stateLine (b : GmqttVerif.Broker.B) : String :=
   let ret := b.retained.map (fun (tm : String × Deliver.Msg) => s!"{showTok tm.1}/{showTok tm.2.tag}/{tm.2.qos}")
   s!"sessions=[{srt sess}] online=[{srt online}] subs=[{srt subs}] retained=[{srt ret}]"
 
-def step (asis : Bool) (st : ASt) (line : String) : ASt × String :=
+/-- `parconn name,cid,v,user,pass …`: the CONNECTs of several fresh connections arrive at the same moment. The verdict on each
+    depends on its own credentials and on the account store only (Properties/C19: `connect_authenticated_iff`), the client ids
+    are pairwise different, so the model takes them one after the other, in the order given (= name order). -/
+def parLines (specs : List String) : Option (List String) :=
+  specs.mapM (fun sp => match sp.splitOn "," with
+    | [n, cid, v, u, p] => some s!"conn {n} {cid} v={v} cs=1 user={u} pass={p}"
+    | _ => none)
+
+def step1 (asis : Bool) (st : ASt) (line : String) : ASt × String :=
   match words line with
   | "new" :: rest =>
     let (_, m) := kvSplit rest
@@ -250,6 +258,19 @@ def step (asis : Bool) (st : ASt) (line : String) : ASt × String :=
         else broker st line
     | _, _ => broker st line
   | [] => (st, "bad-op")
+
+def step (asis : Bool) (st : ASt) (line : String) : ASt × String :=
+  match words line with
+  | "parconn" :: specs =>
+    if !st.bs.have_ then (st, "no-broker") else
+    match parLines specs with
+    | none => (st, "bad-op")
+    | some ls =>
+      let (st', outs) := ls.foldl (fun (acc : ASt × List String) l =>
+        let (s1, o) := step1 asis acc.1 l
+        (s1, acc.2 ++ (if o == "-" then [] else [o]))) (st, [])
+      (st', if outs.isEmpty then "-" else String.intercalate " " outs)
+  | _ => step1 asis st line
 
 end Driver.AuthBroker
 
